@@ -253,7 +253,8 @@ mod enigma_line {
 			let line = &line[idents..];
 
 			// if the line is a `COMMENT` then it may contain `#`, otherwise everything after `#` is a comment
-			let line = if line.starts_with(crate::enigma_file::COMMENT) {
+			let is_comment = line.starts_with(crate::enigma_file::COMMENT);
+			let line = if is_comment {
 				line
 			} else if let Some((non_comment, _)) = line.split_once('#') {
 				non_comment.trim()
@@ -266,7 +267,10 @@ mod enigma_line {
 			}
 
 			const JAVA_WHITESPACE: [char; 6] = [' ', '\t', '\n', '\x0b', '\x0c', '\x0d'];
-			let mut fields = line.split(JAVA_WHITESPACE).map(|x| x.to_owned());
+			// the text of a `COMMENT` line is everything after the first separator, as it is: it's not split any further,
+			// otherwise a tab inside a comment would come back as a space
+			let limit = if is_comment { 2 } else { usize::MAX };
+			let mut fields = line.splitn(limit, JAVA_WHITESPACE).map(|x| x.to_owned());
 
 			let first_field = fields.next()
 				.with_context(|| anyhow!("no first field in line {line_number}"))?;
@@ -288,6 +292,20 @@ mod enigma_line {
 			self.line_number
 		}
 	}
+}
+
+/// Writes the `COMMENT` lines of a javadoc, one for each of its lines.
+fn write_comment(javadoc: &Option<JavadocMapping>, w: &mut impl Write, indent: &str) -> Result<()> {
+	if let Some(javadoc) = javadoc {
+		for line in javadoc.0.split('\n') {
+			// reading takes a carriage return at the end of a line for a part of the line break, it would be lost silently
+			if line.ends_with('\r') {
+				bail!("comment line {line:?} ends with a carriage return, the enigma format cannot store that");
+			}
+			writeln!(w, "{indent}COMMENT {line}")?;
+		}
+	}
+	Ok(())
 }
 
 fn write_class(class_key: &ObjClassNameSlice, class: &ClassNowodeMapping<2>, w: &mut impl Write, indent: usize) -> Result<()> {
@@ -313,11 +331,7 @@ fn write_class(class_key: &ObjClassNameSlice, class: &ClassNowodeMapping<2>, w: 
 	}
 	writeln!(w)?;
 
-	if let Some(javadoc) = &class.javadoc {
-		for line in javadoc.0.split('\n') {
-			writeln!(w, "{indent}\tCOMMENT {line}")?;
-		}
-	}
+	write_comment(&class.javadoc, w, &format!("{indent}\t"))?;
 
 	let mut fields: Vec<_> = class.fields.iter().collect();
 	fields.sort_by(|a, b| a.1.info.names.cmp(&b.1.info.names).then_with(|| a.1.info.desc.cmp(&b.1.info.desc)));
@@ -329,11 +343,7 @@ fn write_class(class_key: &ObjClassNameSlice, class: &ClassNowodeMapping<2>, w: 
 		}
 		writeln!(w, " {desc}")?;
 
-		if let Some(javadoc) = &field.javadoc {
-			for line in javadoc.0.split('\n') {
-				writeln!(w, "{indent}\t\tCOMMENT {line}")?;
-			}
-		}
+		write_comment(&field.javadoc, w, &format!("{indent}\t\t"))?;
 	}
 
 	let mut methods: Vec<_> = class.methods.iter().collect();
@@ -346,11 +356,7 @@ fn write_class(class_key: &ObjClassNameSlice, class: &ClassNowodeMapping<2>, w: 
 		}
 		writeln!(w, " {desc}")?;
 
-		if let Some(javadoc) = &method.javadoc {
-			for line in javadoc.0.split('\n') {
-				writeln!(w, "{indent}\t\tCOMMENT {line}")?;
-			}
-		}
+		write_comment(&method.javadoc, w, &format!("{indent}\t\t"))?;
 
 		let mut parameters: Vec<_> = method.parameters.values().collect();
 		parameters.sort_by_key(|x| &x.info);
@@ -362,11 +368,7 @@ fn write_class(class_key: &ObjClassNameSlice, class: &ClassNowodeMapping<2>, w: 
 
 			writeln!(w, "{indent}\t\tARG {index} {dst}")?;
 
-			if let Some(javadoc) = &parameter.javadoc {
-				for line in javadoc.0.split('\n') {
-					writeln!(w, "{indent}\t\t\tCOMMENT {line}")?;
-				}
-			}
+			write_comment(&parameter.javadoc, w, &format!("{indent}\t\t\t"))?;
 		}
 	}
 
